@@ -168,7 +168,16 @@ impl<'i> RecipeCollector<'i, '_> {
                     // If define mode is ingredients, don't add the
                     // step to the section. The components should have been
                     // added to their lists
-                    if self.define_mode != DefineMode::Components || new_content.is_text() {
+                    //
+                    // Empty content is never added: a text block without text
+                    // (`>`) or a step without items (a lone `\`).
+                    let is_empty = match &new_content {
+                        Content::Step(step) => step.items.is_empty(),
+                        Content::Text(text) => text.is_empty(),
+                    };
+                    if (self.define_mode != DefineMode::Components || new_content.is_text())
+                        && !is_empty
+                    {
                         if new_content.is_step() {
                             self.step_counter += 1;
                         }
